@@ -42,7 +42,7 @@ fn s1() {
         let re = re.clone();
         let exp = exp.clone();
         hs.push(thread::spawn(move || {
-            for k in 0..3usize {
+            for k in 0..2usize {
                 let i = (t + k) % 3;
                 let got = render_all(&re, inputs[i], "[$1|$3]");
                 check(&format!("S1 thread {} input {:?}", t, inputs[i]), &got, &exp[i]);
@@ -80,10 +80,10 @@ fn s2() {
 /// S3: compile on A, use on B, drop on C.
 fn s3() {
     let exp = {
-        let re = Regex::xpath(r"(?:ab|c)*d(x?)", "").unwrap();
+        let re = Regex::xpath(r"(?:ab|c)*d(x)?", "").unwrap();
         render_all(&re, "abcd-cdx", "<$1>")
     };
-    let a = thread::spawn(|| Arc::new(Regex::xpath(r"(?:ab|c)*d(x?)", "").unwrap()));
+    let a = thread::spawn(|| Arc::new(Regex::xpath(r"(?:ab|c)*d(x)?", "").unwrap()));
     let re = a.join().unwrap();
     let re_b = re.clone();
     let b = thread::spawn(move || render_all(&re_b, "abcd-cdx", "<$1>"));
@@ -133,6 +133,27 @@ fn s4() {
     }
 }
 
+/// S5: concurrent *first* calls on a freshly compiled shared object (lazily computed
+/// per-object state), for a pattern that matches the empty string and one that does not.
+/// The expectation comes from a separate fresh object used by the main thread alone.
+fn s5() {
+    for pat in [r"(k7x)?z*", r"(k7x)+z"] {
+        let exp = {
+            let fresh = Regex::xpath(pat, "").unwrap();
+            render_all(&fresh, "k7xzz k9x", "-")
+        };
+        let shared = Arc::new(Regex::xpath(pat, "").unwrap());
+        let mut hs = Vec::new();
+        for _ in 0..3usize {
+            let re = shared.clone();
+            hs.push(thread::spawn(move || render_all(&re, "k7xzz k9x", "-")));
+        }
+        for (t, h) in hs.into_iter().enumerate() {
+            check(&format!("S5 {:?} thread {}", pat, t), &h.join().unwrap(), &exp);
+        }
+    }
+}
+
 fn main() {
     let which = std::env::args().nth(1).unwrap_or_else(|| "S1".to_string());
     match which.as_str() {
@@ -140,6 +161,9 @@ fn main() {
         "S2" => s2(),
         "S3" => s3(),
         "S4" => s4(),
+        "S5" => s5(),
+        // self-test of the stage's failure reporting
+        "FAIL" => check("FAIL selftest", &["a".to_string()], &["b".to_string()]),
         other => {
             eprintln!("unknown scenario {}", other);
             std::process::exit(2);
